@@ -72,21 +72,56 @@ def cases(tier, rng):
                 ps.append(pad(p, [bt for bt in range(2) if rng.random() < .4], axes))
             steps.append(frame(raw(pads=ps)))
         yield (scenario([0, 2, 4], [0], cfg, steps), 'gamepads')
+    for x in extra_cases(tier, rng):
+        yield x
+
+def extra_cases(tier, rng):
+    # (a) a context created while only part of a combination is down: the combination is not active, so the binding is not
+    # "held"; once the rest goes down it reads active at once (and a fully held combination stays ignored until released)
+    for first, then in (([1], [1, 102]), ([102], [1, 102]), ([1, 103], [1, 103]), ([1], [1, 103, 104]), ([], [1, 102])):
+        for how in ('insert', 'rebuild'):
+            ids = Ids()
+            cfg = {(0, 0): one_ctx(ids, [key(1, CONTROL), key(1), key(1, CONTROL | SHIFT), motion(SHIFT)])}
+            mo = (F(1), F(-1, 2))
+            steps = [sop(spawn(0, [0] if how == 'rebuild' else [])), frame(raw()), frame(raw(keys=first, motion=mo))]
+            steps.append(sop(insert(0, 0) if how == 'insert' else REBUILD))
+            steps += [frame(raw(keys=first, motion=mo)), frame(raw(keys=then, motion=mo)), frame(raw(keys=then + [104], motion=mo)), frame(raw(motion=mo)), frame(raw(keys=then))]
+            yield (scenario([0], [0], cfg, steps), 'late-context-partial-combination')
+    # (b) consuming actions in contexts tied to different gamepads (and an unrestricted one below them): what one consumes
+    # on its gamepad hides nothing on the other
+    for _ in range(60 if tier == 'thorough' else 12):
+        ids = Ids()
+        pin = [pbutton(0), paxis(0)]
+        def cons(slot, padno):
+            return spec([action(ids, aid(j % 2, slot, True, False), [bind(ids, inp, [PROBE], [])]) for j, inp in enumerate(pin)], pad=padno)
+        cfg = {(0, 0): cons(0, 0), (4, 0): cons(1, 1)}
+        with_any = rng.random() < .5
+        if with_any: cfg[(2, 0)] = cons(2, None)
+        menu = sorted(c for c, _ in cfg)
+        steps = [sop(spawn(0, menu)), frame(raw(pads=[pad(0), pad(1)]))]
+        for _ in range(8):
+            hot = rng.randrange(2)
+            # with an unrestricted context present at most one gamepad reports the axis (the property says nothing else)
+            ps = [pad(p, [0] if rng.random() < .6 else [], [(0, rng.choice([F(-1), F(1, 2), F(3, 4)]) if (not with_any or p == hot) else F(0))]) for p in range(2)]
+            steps.append(frame(raw(pads=ps)))
+        yield (scenario(menu, [0], cfg, steps), 'consuming-per-gamepad')
 
 def nontrivial(case, out):
     return 'VB true' in out or 'V1 1' in out or 'V2 ' in out
 
-STAGES = [dict(name='reads', mode='app', coq='Check.Readc', cases=cases, nontrivial=nontrivial, shard=6,
+STAGES = [dict(name='reads', mode='app', coq='Check.C15c', cases=cases, nontrivial=nontrivial, shard=6,
                exhaustive={'thorough': True, 'quick': False},
                rule='real contexts with non-consuming actions and a probe modifier on every binding; input through the real Bevy input resources/events. '
                     'Keyboard key and mouse button under all 16 modifier masks x subsets of the eight modifier keys (all 256 in thorough, 96 sampled in quick) x bound key up/down x an unrelated key up/down; '
                     'mouse motion and wheel under masks with quiet frames, three injection modes; unrestricted and single-gamepad contexts side by side with 1-3 gamepads disappearing and new ones connecting into the freed entity slot, '
-                    'axis values in [-1,1], at most one gamepad non-zero per axis. non-trivial = some binding reads active; distinct = distinct scenario text')]
+                    'axis values in [-1,1], at most one gamepad non-zero per axis; contexts created while part of a key combination is down; consuming actions in contexts tied to different gamepads. non-trivial = some binding reads active; distinct = distinct scenario text')]
 CLAUSES = {1: 'a keyboard binding read differs from "key down and, for every required modifier, left or right variant down"',
            2: 'a mouse binding read differs from its specification (button / accumulated motion / wheel under the modifier mask)',
            3: 'a gamepad binding read differs from its specification (single gamepad only; any gamepad: button on any, first non-zero axis)',
+           11: 'with consuming actions: a read differs from the raw input of the named device / combination although nothing related was consumed before it (or was not hidden although something was)',
+           12: 'a binding of a context created in mid-run was (not) driven although the combination it names was not (was) fully active in every frame since creation',
            8: 'panic', 9: 'malformed trace', 10: 'panic'}
 def describe(stage, clause): return CLAUSES.get(clause, 'clause %d' % clause)
 def matches_known(k, case, verdict): return False
 TRUSTED = TRUSTED_BASE + ['Bevy ButtonInput / AccumulatedMouseMotion / Gamepad modelled as sets and maps']
-ASSUMES = ['no UI interaction and non-consuming actions in this profile', 'at most one gamepad reports a non-zero value per axis for unrestricted contexts (the property claims nothing else)']
+ASSUMES = ['no UI interaction in this profile; consuming actions only in the per-gamepad family (judged by the consumption-aware judgement)', 'at most one gamepad reports a non-zero value per axis for unrestricted contexts (the property claims nothing else)']
